@@ -684,7 +684,7 @@ impl Engine for Conv {
                     FV::Nan | FV::Inf(_) => {
                         for (label, got) in &outs {
                             let exp = match (form_of(label), &fv) {
-                                ("checked", _) => Exp::Is(Out::O(None)),
+                                ("checked", _) | ("static", _) => Exp::Is(Out::O(None)),
                                 ("saturating", FV::Inf(neg)) => Exp::Is(Out::V(if *neg { dl.raw_min() } else { dl.raw_max() })),
                                 _ => Exp::MustPanic,
                             };
@@ -759,6 +759,7 @@ impl Engine for Conv {
                                 Exp::Is(Out::F(want, false))
                             }
                         }
+                        "static" => Exp::OneOf(vec![Out::O(Some(want)), Out::O(None)]),
                         _ => Exp::Is(Out::V(want)),
                     };
                     check(label, got, exp, &mut ev);
